@@ -217,7 +217,10 @@ class Negotiated:
             for capa in sent_ms_capa:
                 # no need to check that the capability exists, we generated it
                 # checked it is what we sent and only send MULTIPROTOCOL
-                if sent_capa[capa] != recv_capa[capa]:
+                # "we generated it" holds for what we sent, not for what the peer answered: a peer which lists
+                # MULTIPROTOCOL in its session id and sends no such capability made this a KeyError, the
+                # session was dropped without a NOTIFICATION
+                if sent_capa.get(capa) != recv_capa.get(capa):
                     self.multisession = (
                         2,
                         8,
